@@ -2,7 +2,7 @@
 import ast
 
 from sa.program import src, own_nodes, call_name, dotted, parent, kwarg
-from sa import guards
+from sa import guards, resolve
 
 EXPLANATION = (
     "Static rules over pyiga/operators.py, kronecker.py and tensor.py: (R16.1) every LinearOperator subclass that "
@@ -212,10 +212,18 @@ def r16_3(ctx):
     defs = [n for n in own_nodes(init.node) if isinstance(n, ast.Assign)
             and any(isinstance(t, ast.Name) and t.id == 'allsquare' for t in n.targets)]
     ok_def = False
+    per_factor = False          # some comparison X.shape[0] ==/!= X.shape[1] of ONE factor X feeds the definition
     for d in defs:
         s = src(d.value).replace(' ', '')
         if s.startswith('all(') and ('.shape[0]==' in s and '.shape[1]' in s):
             ok_def = True
+        full = resolve.expand(d.value, d)
+        for c in list(ast.walk(full)) + [x for st in own_nodes(init.node) for x in ast.walk(st) if isinstance(x, ast.Compare)]:
+            if isinstance(c, ast.Compare) and len(c.ops) == 1 and isinstance(c.ops[0], (ast.Eq, ast.NotEq)):
+                a, b = src(c.left).replace(' ', ''), src(c.comparators[0]).replace(' ', '')
+                for x, y in ((a, b), (b, a)):
+                    if x.endswith('.shape[0]') and y.endswith('.shape[1]') and x[:-len('.shape[0]')] == y[:-len('.shape[1]')]:
+                        per_factor = True
     for site in sites:
         facts = guards.dominating_facts(site)
         sel = guards.has_literal(facts, 'allsquare', True)
@@ -225,6 +233,10 @@ def r16_3(ctx):
         elif not sel:
             ctx.violated('R16.3', construct, src(site), site,
                          'square-only routine selected on a path where allsquare is not known to hold')
+        elif defs and not per_factor:
+            ctx.violated('R16.3', construct, 'allsquare = ' + src(defs[0].value)[:90], defs[0],
+                         'the flag that admits the square-only routine is not computed factor by factor (no comparison of shape[0] with '
+                         'shape[1] of one operand): a product of rectangular factors can have a square total shape')
         else:
             ctx.undecided('R16.3', construct, src(site), site, 'definition of allsquare not recognised')
     # apply_kronecker: the linops route there is documented for square operators; precondition is the docstring
